@@ -49,6 +49,7 @@ def handle (ts : List String) : Option String :=
         some (bytesToHex (layoutFile (editWithMetadata a e nb)))
     | _ => none
   | "editcrash" :: _ => some "old|new"
+  | "editcli" :: _ => some "old|new"
   | "showedit" :: _ => some "identical"
   | _ => none
 
